@@ -5,7 +5,7 @@ CONSTANTS
   AgentHost = 9
   FixMixedSum = TRUE
   FixEmptyHost = TRUE
-  Shapes <- MCLeaves14
+  Shapes <- MCLeaves10
   Percs = {FALSE, TRUE}
   MaxLeaves = 4
 VIEW View
